@@ -89,7 +89,7 @@ def run_property(spec, tier, seed):
     tot = collections.Counter()
     bad_sk = []
     for s in sums:
-        for k in ("leaves", "forks", "checks", "solver_us", "decisions", "unknown_branch", "proves", "prove_us", "capped"):
+        for k in ("leaves", "forks", "checks", "solver_us", "decisions", "unknown_branch", "proves", "prove_us", "capped", "watchdog"):
             tot[k] += s.get(k, 0)
         if s.get("status", 0) != 0 or s.get("child_fail", 0) != 0:
             bad_sk.append(s)
@@ -268,7 +268,7 @@ def run_property(spec, tier, seed):
             "transitions": tot["decisions"],
             "traces_validated_against_impl": wit_ok + len(reproduced),
             "samples": samples,
-            "exhaustive": not tot["capped"] and not inconclusive_reasons and not unknown,
+            "exhaustive": not tot["capped"] and not tot["watchdog"] and not inconclusive_reasons and not unknown,
             "skeletons": len(sks),
             "distinct_nontrivial": nontrivial,
             "rule": spec.get("rule", "one case = one skeleton (concrete kinds/tickers/days, all numeric fields symbolic); non-trivial = explored with >= 2 feasible paths"),
@@ -284,6 +284,7 @@ def run_property(spec, tier, seed):
             "solver_seconds": round((tot["solver_us"] + tot["prove_us"]) / 1e6, 2),
             "branch_queries_unknown": tot["unknown_branch"],
             "paths_capped": tot["capped"],
+            "paths_abandoned_by_solver_watchdog": tot["watchdog"],
             "path_witnesses_checked": wit_ok + len(wit_bad),
             "boundary_witnesses_replayed": bw_checked,
             "real_build_residue_refusals_at_witnesses": residue_refusals,
